@@ -33,13 +33,40 @@ func view(c store.Cursor) store.Cursor {
 	return &viewCursor{c}
 }
 func views(l []store.Cursor) []store.Cursor {
-	out := make([]store.Cursor, len(l))
+	if len(l) == 0 {
+		return nil // "no children" may be the nil slice
+	}
+	// the slice handed out has spare capacity that belongs to the caller (an arena of child lists back to back): the
+	// cells behind the length hold a sentinel and must still hold it afterwards
+	out := make([]store.Cursor, len(l), len(l)+2)
 	for i, c := range l {
 		out[i] = view(c)
 	}
+	full := out[:len(l)+2]
+	full[len(l)], full[len(l)+1] = arenaSentinel, arenaSentinel
+	if len(arenaGuards) < 4096 {
+		arenaGuards = append(arenaGuards, full)
+	}
 	return out
 }
-func (v *viewCursor) Pos() int                   { return v.in.Pos() }
+
+var arenaSentinel store.Cursor = &viewCursor{}
+var arenaGuards [][]store.Cursor
+
+// arenaTouched reports (and forgets) whether the library wrote behind the length of a slice a Cursor handed out
+func arenaTouched() bool {
+	bad := false
+	for _, g := range arenaGuards {
+		if g[len(g)-1] != arenaSentinel || g[len(g)-2] != arenaSentinel {
+			bad = true
+		}
+	}
+	arenaGuards = arenaGuards[:0]
+	return bad
+}
+
+// positions need not be contiguous: every position is stretched (the root stays 0, the order is kept)
+func (v *viewCursor) Pos() int                   { return 3*v.in.Pos() - v.in.Pos()%2 }
 func (v *viewCursor) Node() node.Node            { return v.in.Node() }
 func (v *viewCursor) Namespaces() []store.Cursor { return views(v.in.Namespaces()) }
 func (v *viewCursor) Attributes() []store.Cursor { return views(v.in.Attributes()) }
@@ -140,6 +167,9 @@ func oneRoute(k int, root store.Cursor, start Path, env *Env, g *xsel.Grammar, r
 		// a caller-implemented Cursor
 		vroot := view(root)
 		r3, err3 := xsel.Exec(cursorAt(vroot, start), g, env.Settings(vroot)...)
+		if arenaTouched() {
+			return "over a caller-implemented Cursor: the library wrote into the spare capacity of a slice that Children() / Attributes() / Namespaces() returned (the caller's arena)"
+		}
 		if p3 := projectResult(r3, err3); p3 != main {
 			return fmt.Sprintf("over a caller-implemented Cursor (fresh values on every navigation): %s, over the in-memory store: %s", p3, main)
 		}
@@ -281,4 +311,78 @@ func aftermathEvent(_ store.Cursor, k int) (complaint string) {
 	g := xsel.MustBuildExpr("concat(string(/), string-length(/), number(/*))")
 	xsel.Exec(&poisonCursor{root, &fuse}, &g)
 	return ""
+}
+
+// ---- caller-implemented Result ----
+//
+// A Result is whatever implements String() / Number() / Bool(): the conversions applied to a bound value or to what a
+// custom function returns are the value's OWN methods, not the XPath conversions of its string. callerResult is such a
+// value whose three faces are unrelated ("12.5 kg" / 12.5 / false).
+type callerResult struct {
+	S string
+	N float64
+	B bool
+}
+
+func (c *callerResult) String() string  { return c.S }
+func (c *callerResult) Number() float64 { return c.N }
+func (c *callerResult) Bool() bool      { return c.B }
+
+// callerResultCases: every expression is evaluated with $c bound to the caller's value (and f() returning it) and
+// again with $c bound to the library's own Number / String / Bool of the face that the context asks for; the two
+// answers must be the same. Returns a description of the first disagreement.
+func callerResultCases(root store.Cursor, which string) string {
+	vals := []*callerResult{{"12.5 kg", 12.5, false}, {"3rd", 3, true}, {"", 2, true}, {"0", 7, false}, {"yes", 1, true}, {"NaN", -0.5, false}}
+	type ctx struct {
+		face string
+		expr string
+	}
+	ctxs := []ctx{
+		{"num", "$c + 1"}, {"num", "$c * 2"}, {"num", "7 - $c"}, {"num", "-$c"}, {"num", "$c mod 2"}, {"num", "10 div $c"}, {"num", "floor($c)"}, {"num", "round($c)"}, {"num", "number($c)"},
+		{"num", "substring('abcdefgh', $c)"}, {"num", "substring('abcdefgh', 2, $c)"}, {"num", "$c < 4"}, {"num", "f() + 1"}, {"num", "substring('abcdefgh', f())"}, {"num", "sum(/*) + f()"},
+		{"str", "string($c)"}, {"str", "concat($c, '|', f())"}, {"str", "string-length($c)"}, {"str", "contains($c, 'k')"}, {"str", "normalize-space($c)"}, {"str", "starts-with($c, '1')"},
+		{"str", "translate($c, 'k', 'K')"}, {"str", "$c = 'yes'"},
+		{"bool", "boolean($c)"}, {"bool", "not($c)"}, {"bool", "$c and true()"}, {"bool", "$c or false()"}, {"bool", "count(//*[$c])"}, {"bool", "count(//*[f()])"}, {"bool", "$c = true()"},
+	}
+	for _, cv := range vals {
+		for _, cx := range ctxs {
+			if which != "all" && which != cx.face {
+				continue
+			}
+			var lib xsel.Result
+			switch cx.face {
+			case "num":
+				lib = xsel.Number(cv.N)
+			case "str":
+				lib = xsel.String(cv.S)
+			default:
+				lib = xsel.Bool(cv.B)
+			}
+			g, err := xsel.BuildExpr(cx.expr)
+			if err != nil {
+				return "cannot build " + cx.expr
+			}
+			run := func(v xsel.Result) string {
+				defer func() { recover() }()
+				r, e := xsel.Exec(root, &g, xsel.WithVariable("c", v), xsel.WithFunction("f", func(xsel.Context, ...xsel.Result) (xsel.Result, error) { return v, nil }))
+				return projectResult(r, e)
+			}
+			callerCount++
+			if a, b := run(cv), run(lib); a != b {
+				return fmt.Sprintf("%s with $c (and f()) a caller's Result {String %q, Number %v, Bool %v} gives %s; with the library's own value of that face (%v) it gives %s", cx.expr, cv.S, cv.N, cv.B, a, lib, b)
+			}
+		}
+	}
+	return ""
+}
+
+var callerCount int
+
+// checkCallerResults runs the caller-implemented-Result cases on one document of a family and reports a disagreement
+// as a violation of the family's property
+func (rn *Runner) checkCallerResults(d *Doc, which string) {
+	if m := callerResultCases(d.Root, which); m != "" && !rn.TooMany() {
+		rn.Report(&Replay{Family: "caller-implemented-Result", Clause: "a bound value / a function result is converted by its own String(), Number(), Bool()", Kind: "callerresult",
+			Events: d.Events, Doc: showEvents(d.Events), Text: which, Impl: m, Model: ""}, m)
+	}
 }
